@@ -2429,7 +2429,10 @@ class IndicatorSumConstraint(Functional):
 
             def _call(self, x, out):
 
-                offset = 1 / x.size * (sum_value - x.ufuncs.sum())
+                # Number of scalar entries (``x.size`` only counts the
+                # parts of a product space that is not a power space)
+                num_entries = domain.one().ufuncs.sum()
+                offset = (sum_value - x.ufuncs.sum()) / num_entries
                 out.assign(x)
                 out += offset
 
